@@ -63,6 +63,7 @@ package skiplist
 //@   ensures inv: skinv(asref(result, tSkipList))
 
 //@ func (*tSkipList) search
+//@   loops 2
 //@   opt slices=owned
 //@   opt overflow=off
 //@   requires skinv(self)
@@ -73,6 +74,7 @@ package skiplist
 //@   loop 1 invariant 0 <= level && level < self.levels && isnode(self, node) && below(self, node, key) && len(node.fingers) > level && next == node.fingers
 
 //@ func (*tSkipList) skip
+//@   loops 2
 //@   opt slices=owned
 //@   opt overflow=off
 //@   requires skinv(self)
@@ -87,6 +89,7 @@ package skiplist
 // node heights are random: every rank in [1, levels] must do. The floating point value p is
 // not reasoned about (float operations are uninterpreted): the rank is at least 1 whatever p is.
 //@ func (*tSkipList) mkNode
+//@   loops 1
 //@   opt overflow=off
 //@   requires shape(self)
 //@   modifies Alloc
@@ -100,6 +103,7 @@ package skiplist
 //@   ensures like_a_map: result == ite(dom(self)[key], view(self)[key], zero(V))
 
 //@ func (*tSkipList) Put
+//@   loops 1
 //@   opt slices=owned
 //@   opt overflow=off
 //@   requires skinv(self)
@@ -123,6 +127,7 @@ package skiplist
 //@   loop 0 invariant forall l Int :: 0 <= l && l < rank ==> node.fingers[l] == ite(l < level, old(path[l].fingers)[l], nil)
 
 //@ func (*tSkipList) Remove
+//@   loops 1
 //@   opt slices=owned
 //@   opt overflow=off
 //@   requires skinv(self)
@@ -152,6 +157,7 @@ package skiplist
 //@   requires self != nil
 
 //@ func (*tSkipList) String
+//@   loops 1
 //@   opt overflow=off
 //@   requires skinv(self)
 //@   loop 0 invariant v == nil || isnode(self, v)
